@@ -1,10 +1,11 @@
 // Drives the real souffle::EquivalenceRelation<Tuple<RamDomain,2>> for property C28.
 // stdin: one job per line
-//   Q <nrels> <b|-> <ops>            sequential history on relations 1..nrels; the object state is dumped after every call
+//   Q <nrels> <b|-|x> <ops>          sequential history on relations 1..nrels; the object state is dumped after every call
 //        ops ','-separated:  i:r:a:b insert   A:r:o r.insertAll(o)   X:r:o r.extendAndInsert(o)
 //                            c:r:a:b contains  s:r size               a:r:x getBoundaries<1>({x,_})
 //        b = run the whole query battery on every relation after every updating call (its calls perturb the forest by path
-//        halving, so state lines are only comparable with the model when the battery is off); the battery always runs at the end
+//        halving, so state lines are only comparable with the model when the battery is off); "-": the battery runs at the end only;
+//        "x": no battery
 //   C <setup ops|-> <progs> <sched>  relation 1: sequential set-up (ops as above), then concurrent inserts ("a:b,c:d;e:f" per
 //        thread), then the battery
 //        sched: R<seed>:<steps>:<stay>  seeded random, then round-robin drain
@@ -206,7 +207,7 @@ static std::vector<Val> universeOf(std::set<Val> u) {
     return std::vector<Val>(u.begin(), u.end());
 }
 
-static void runQ(long job, int nrels, bool bat, const std::string& opStr) {
+static void runQ(long job, int nrels, bool bat, bool finalBat, const std::string& opStr) {
     std::set<Val> uni;
     auto ops = parseOps(opStr, uni);
     auto universe = universeOf(uni);
@@ -233,7 +234,8 @@ static void runQ(long job, int nrels, bool bat, const std::string& opStr) {
         }
     }
     std::vector<std::string> q;
-    for (int i = 0; i < nrels; i++) battery(*rels[i], i + 1, universe, q);
+    if (finalBat)
+        for (int i = 0; i < nrels; i++) battery(*rels[i], i + 1, universe, q);
     for (auto& e : q) std::printf("V %s\n", e.c_str());
     std::printf("E\n");
 }
@@ -432,7 +434,7 @@ int main() {
         }
         auto f = split(line, ' ');
         if (f[0] == "Q") {
-            runQ(job++, std::stoi(f[1]), f[2] == "b", f.size() > 3 ? f[3] : "-");
+            runQ(job++, std::stoi(f[1]), f[2] == "b", f[2] != "x", f.size() > 3 ? f[3] : "-");
         } else if (f[0] == "C") {
             CJob j;
             std::set<Val> uni;
